@@ -309,3 +309,13 @@ pub(crate) fn identity(ing: u32, hash: u64, disambiguator: u32) -> Identity {
     Identity { ingredient_index: IngredientIndex::new(ing), hash, disambiguator: Disambiguator(disambiguator) }
 }
 
+impl IdentityMap {
+    pub(crate) fn verif_is_empty(&self) -> bool {
+        self.table.is_empty()
+    }
+}
+impl DisambiguatorMap {
+    pub(crate) fn verif_is_empty(&self) -> bool {
+        self.map.is_empty()
+    }
+}
